@@ -56,7 +56,7 @@ ArgsT(n, args) ==
   ELSE G(n, "arg_before", "in", TRUE) \o CatSep(args, G(n, "arg_after", "in", TRUE) \o W(",") \o G(n, "arg_before", "in", TRUE))
        \o G(n, "arg_after", "in", TRUE)
 FCallX(fn, args) == [a |-> [k |-> "fcallx", fn |-> fn, args |-> SeqA(args)],
-                     t |-> W(fn) \o W("(") \o ArgsT("fcallx", args) \o W(")")]
+                     t |-> W(fn) \o G("fcallx", "before_paren", "in", FALSE) \o W("(") \o ArgsT("fcallx", args) \o W(")")]
 Postfix(op, l) == [a |-> [k |-> "postfix", op |-> op, left |-> l.a], t |-> W(l.a.v \o op)]    \* `50%` is one word
 IfX(c, x, y) == [a |-> [k |-> "ifx", c |-> c.a, a |-> x.a, b |-> y.a],
                  t |-> W("if") \o W("(") \o c.t \o W(",") \o x.t \o W(",") \o y.t \o W(")")]
@@ -139,7 +139,7 @@ Call(sub, args, form) ==
      \o (IF form = "bare" THEN <<>> ELSE W("(") \o ArgsT("call", args) \o W(")")) \o G("call", "before_semi", "in", TRUE))
 FCall(fn, args) ==
   St("fcall", [k |-> "fcall", fn |-> fn, args |-> SeqA(args)],
-     W(fn) \o W("(") \o ArgsT("fcall", args) \o W(")") \o G("fcall", "before_semi", "in", TRUE))
+     W(fn) \o G("fcall", "before_paren", "in", FALSE) \o W("(") \o ArgsT("fcall", args) \o W(")") \o G("fcall", "before_semi", "in", TRUE))
 ErrorS(code, arg) ==
   St("error", [k |-> "error", code |-> code.a, arg |-> arg.a],
      W("error") \o G("error", "after_kw", "in", TRUE) \o code.t
@@ -168,17 +168,18 @@ Block(body) == [a |-> [k |-> "block", body |-> SeqA(body), p_blank |-> FALSE],
 
 \* if <c> ( <c> cond <c> ) <c> { ... }  <c> else if ...  <c> else <c> { ... }
 \* docs/parser.md puts no placeholder at the end of an if-block or after its closing brace; "block_trail" is the
-\* position on the same line as the closing brace that is followed by else-if / else (`} // c<LF> else {`)
+\* position on the same line as the closing brace that is followed by else-if / else (`} // c<LF> else {`): it is the
+\* documented <comment> placeholder between the brace and the keyword, whichever line it is written on
 IfBlockT(body) == W("{") \o NL \o CatT(body) \o G("if", "block_end", "inner", FALSE) \o W("}")
 CondT(n, kwT, c) ==
   kwT \o G(n, "after_kw", "in", TRUE) \o W("(") \o G(n, "cond_before", "in", TRUE) \o c.t \o G(n, "cond_after", "in", TRUE)
   \o W(")") \o G(n, "before_block", "in", TRUE)
 Elif(kwT, kw, c, body) ==
   [a |-> [k |-> "elif", p_kw |-> kw, cond |-> c.a, then |-> SeqA(body)],
-   t |-> G("if", "block_trail", "trail", FALSE) \o G("elif", "lead", "lead", TRUE) \o CondT("elif", kwT, c) \o IfBlockT(body)]
+   t |-> G("if", "block_trail", "trail", TRUE) \o G("elif", "lead", "lead", TRUE) \o CondT("elif", kwT, c) \o IfBlockT(body)]
 Else(body) ==
   [a |-> [k |-> "else", body |-> SeqA(body)],
-   t |-> G("if", "block_trail", "trail", FALSE) \o G("else", "lead", "lead", TRUE) \o W("else") \o G("else", "after_kw", "in", TRUE) \o IfBlockT(body)]
+   t |-> G("if", "block_trail", "trail", TRUE) \o G("else", "lead", "lead", TRUE) \o W("else") \o G("else", "after_kw", "in", TRUE) \o IfBlockT(body)]
 If(c, body, elifs, els) ==
   [a |-> [k |-> "if", cond |-> c.a, then |-> SeqA(body), elifs |-> SeqA(elifs), else |-> els.a, p_blank |-> FALSE],
    t |-> G("if", "lead", "lead", TRUE) \o CondT("if", W("if"), c) \o IfBlockT(body) \o CatT(elifs) \o els.t
@@ -216,6 +217,8 @@ IfStmts ==
           c \in SomeConds, e \in {NoneObj, Else(<<Restart>>)}}
   \cup {If(Cmp, <<Esi>>, <<Elif(W("elsif"), "elsif", Mat, <<>>), Elif(W("else") \o W("if"), "else if", Not, <<Esi>>)>>, Else(<<LogA>>))}
   \cup {If(Cmp, <<If(Not, <<Esi>>, <<>>, Else(<<LogA>>))>>, <<>>, NoneObj)}          \* nesting
+  \cup {If(Cmp, <<Esi>>, <<Elif(W("else") \o W("if"), "else if", Mat, <<LogA>>), Elif(W("elseif"), "elseif", Not, <<Restart>>),
+                        Elif(W("elsif"), "elsif", CmpN, <<SetA>>)>>, Else(<<LogA, Esi>>))}
   \* constructs nested in constructs: switch in if/else, if in a case, block in an else-if, two levels of blocks
   \cup {If(Cmp, <<Switch(idA, <<Case(TestEq(sA), <<If(Not, <<LogA>>, <<Elif(W("elseif"), "elseif", Mat, <<Esi>>)>>, NoneObj), Break>>, FALSE),
                                Case(NoneObj, <<Block(<<SetA>>), Break>>, FALSE)>>)>>,
@@ -430,6 +433,18 @@ PropDocs ==
   {[fam |-> "props", focus |-> BodyDecl(k, <<>>).a.k,
     ds |-> <<BodyDecl(k, [i \in 1..3 |-> IF i > 1 /\ bl[i] THEN Blank(BodyItems[k][i]) ELSE BodyItems[k][i]])>>] :
      k \in 1..5, bl \in [2..3 -> BOOLEAN]}
+
+\* a handful of documents that together have every gap class, for dimensions that multiply (comment spellings x styles)
+FewDocs ==
+  {[fam |-> "few", focus |-> x.a.k, ds |-> <<Sub("vcl_recv", <<>>, "", <<x>>)>>] :
+     x \in {SetS(idA, "=", Cat(sA, FCallX("std.itoa", <<i10>>), TRUE)),
+             If(Infix("&&", Cmp, Not), <<Esi>>, <<Elif(W("else") \o W("if"), "else if", Mat, <<LogA>>)>>, Else(<<Restart>>)),
+             Switch(idA, <<Case(TestEq(sA), <<LogA, Break>>, FALSE), Case(NoneObj, <<Esi, Break>>, FALSE)>>),
+             Return(Id("lookup"), "paren"), Call("helper", <<sA, idB>>, "parens"), Block(<<SetA, LogA>>)}}
+  \cup {[fam |-> "few", focus |-> d.a.k, ds |-> <<d>>] :
+          d \in {Acl("a1", <<Cidr(FALSE, "10.0.0.0", "8"), Cidr(TRUE, "10.1.0.0", "16")>>), Backend("b1", <<pTime, Probe(<<pThr>>), pHost>>),
+                  Table("t1", "STRING", <<TProp(sA, sB, TRUE)>>), Empty("penaltybox", "p1"),
+                  Sub("f1", <<Param("STRING", "var.p")>>, "BOOL", <<Return(Cmp, "paren")>>)}}
 
 DocA(d) == SeqA(d.ds)
 DocT(d) == CatT(d.ds)
